@@ -48,7 +48,34 @@ DESC = {
 }
 
 
+DESC2 = {
+ 'C01_A': ('multi_record_log.rs run_gc_if_necessary', 'guard clone taken after the position pass (third independent rediscovery)', 'all queues empty, position records straddling a file boundary during GC, restart'),
+ 'C01_B': ('multi_record_log.rs truncate', 'memory truncate first, early return without writing the Truncate entry when nothing was evicted', 'truncate of an empty queue into the future, clean restart before any GC'),
+ 'C01_C': ('multi_record_log.rs delete_queue', 'in-memory delete moved after GC + fsync', 'deleting an empty queue while a GC is pending, restart'),
+ 'C02_A': ('rolling/directory.rs Directory::open', 'the scan skips zero-length WAL files as crash leftovers (they stay on disk, untracked)', 'crash between create_new and set_len, restart, writes up to the next roll-over: create_new fails forever'),
+ 'C02_B': ('rolling/directory.rs Directory::gc', 'unused files collected first, then unlinked newest-first', 'a GC removing >= 2 files with a crash between the two unlinks: a hole instead of a suffix'),
+ 'C02_C': ('recordlog/reader.rs go_next', 'record_buffer.clear() at the top of go_next (fourth rediscovery)', 'crash between two frames of a block-spanning entry, recovery, one more entry, restart'),
+ 'C03_A': ('rolling/directory.rs RollingWriter persist (+ synced_offset field)', 'persist(FlushAndFsync) skipped when offset == synced_offset; offset resets at roll-over, synced_offset does not', 'un-fsynced writes totalling an exact multiple of the file size between two fsync-level persists'),
+ 'C03_B': ('multi_record_log.rs run_gc_if_necessary', '`let _file_number` -> `let _` (guard dropped at once)', 'all queues empty, cursor within one position record of the file end during GC'),
+ 'C03_C': ('recordlog/reader.rs go_next', 'a First/Full frame seen while an entry is open returns Err(Corruption) (the valid frame is consumed and dropped)', 'lazy policy, crash between frames of a multi-frame append, recovery, a persisted operation, restart'),
+ 'C04_A': ('multi_record_log.rs run_gc_if_necessary', 'guard clone after the position pass (rediscovery)', 'idle empty queues, position records straddling a boundary, restart'),
+ 'C04_B': ('multi_record_log.rs truncate', 'Truncate entry only written when the in-memory queue is non-empty', 'empty queue truncated ahead of its head, restart, automatic-position append'),
+ 'C04_C': ('mem/queue.rs truncate_head', 'start_position set from next_position() instead of truncate position + 1 in the evict-everything branch', 'a truncate strictly beyond the last appended position, then an automatic-position append'),
+ 'C06_A': ('multi_record_log.rs truncate', 'GC only when evicted_records > 0', 'roll-over while every later truncate is a no-op'),
+ 'C06_B': ('multi_record_log.rs open_with_prefs', 'per-iteration FileNumber clone hoisted out of the replay loop: alive during the recovery GC', 'last read crossing into an all-zero following file with nothing retained in the previous one'),
+ 'C06_C': ('mem/queues.rs + multi_record_log.rs delete_queue', 'removed MemQueue returned and kept alive across the GC pass (rediscovery)', 'deleting the queue that alone pins the oldest files'),
+ 'C07_A': ('frame/writer.rs + frame/reader.rs', 'header-only frames no longer emitted/read when exactly HEADER_LEN bytes remain (both sides changed, empty entries differ)', 'an empty WAL entry starting with exactly 7 bytes left in a block'),
+ 'C07_B': ('recordlog/reader.rs go_next', 'record_buffer.clear() at the top of go_next (rediscovery; needs a crash, not a fault-free C07 violation)', 'DoNothing policy, torn multi-block append, reopen, append, reopen'),
+ 'C07_C': ('frame/reader.rs get_frame_header', 'end-of-log test on the checksum word only ("a CRC is never 0")', 'a payload crafted so that the frame CRC is 0'),
+}
+
+ROUND = os.environ.get('SEED_ROUND', '1')
+
+
 def main():
+    global DESC
+    if ROUND == '2':
+        DESC = DESC2
     out_root = os.path.join(VERIF, 'seeded')
     os.makedirs(out_root, exist_ok=True)
     work = os.path.join(VERIF, '.work')
@@ -66,7 +93,7 @@ def main():
         if not ok:
             print('NOT CONFIRMED, not kept:', key, v)
             continue
-        dst = os.path.join(out_root, key)
+        dst = os.path.join(out_root, key if ROUND == '1' else 'r2_' + key)
         os.makedirs(dst, exist_ok=True)
         for f in ('patch.diff', 'demo.diff', 'notes.md'):
             if os.path.exists(os.path.join(src, f)):
@@ -76,7 +103,7 @@ def main():
         props = r.get('props_failed', []) if r['status'] == 'analysed' else []
         site, what, needs = DESC[key]
         meta = {
-            'id': key, 'property': pid, 'site': site, 'what': what, 'needs': needs,
+            'id': key if ROUND == '1' else 'r2_' + key, 'round': int(ROUND), 'property': pid, 'site': site, 'what': what, 'needs': needs,
             'written_by': 'independent sub-agent given only the property text and a private worktree of /repo',
             'verified_by_me': {
                 'how': 'selftest/verify_seed.sh in a scratch worktree of /repo HEAD: (1) cargo test --offline --workspace --no-fail-fast with patch.diff, (2) the demo tests with patch.diff + demo.diff, (3) the demo tests with demo.diff only',
